@@ -23,6 +23,7 @@ import numpy as np
 from .. import autoscale as A
 from .. import core
 from . import c04_obj
+from . import c04_sr
 
 TOL = F(1, 2 ** 18)
 
@@ -470,6 +471,10 @@ def run(run, tier):
 
   # ---- object-level streams: argument forms, routes, stochastic variants (inference), histories
   c04_obj.run_obj(run, tier, Q, K, tf, np.random.default_rng([run.seed, 4]), eps32, judge)
+
+  # ---- the option use_stochastic_rounding x learning phase (inference: deterministic, tied bit for bit and
+  # compared with a twin without the option; training: judged relationally; histories with phase switches)
+  c04_sr.run_sr(run, tier, Q, K, tf, np.random.default_rng([run.seed, 24]), eps32, judge, line_of)
 
   # ---- malformed configurations: the code must reject what the model rejects, with the same kind
   ml = []
